@@ -20,21 +20,43 @@ def plan(tier):
     for m in (":is", ":contains", ":matches", ":notis", ":notcontains", ":notmatches"):
         for d in (False, True):
             pl.units.append(U("RB.header%s.%s" % (m, "disabled" if d else "enabled"), "contracts.readback", "h_header_readback", (m, d), native_ok=True, sample_models=True))
+    from contracts import readback as rb
+    for k in rb.CONDITION_KINDS:
+        for d in (False, True):
+            pl.units.append(U("RB.condition.%s.%s" % (k, "disabled" if d else "enabled"), "contracts.readback", "h_condition_readback", (k, d),
+                              native_ok=True, sample_models=True))
+    for k in (1, 2, 3):
+        for neg_ in (False, True):
+            for d in (False, True):
+                pl.units.append(U("RB.%s%d.%s" % ("notexists" if neg_ else "exists", k, "disabled" if d else "enabled"), "contracts.readback",
+                                  "h_exists_readback", (k, neg_, d), native_ok=True, sample_models=True))
+    for k in rb.ACTION_KINDS:
+        for d in (False, True):
+            pl.units.append(U("RB.actions.%s.%s" % (k, "disabled" if d else "enabled"), "contracts.readback", "h_action_forms_readback", (k, d),
+                              native_ok=True, sample_models=True))
+    for d in (False, True):
+        pl.units.append(U("RB.updated.%s" % ("disabled" if d else "enabled"), "contracts.readback", "h_updated_readback", (d,),
+                          native_ok=True, sample_models=True))
     pl.bounded = [bounded_readback]
     pl.functions = [("sievelib.factory", "FiltersSet.get_filter_conditions"), ("sievelib.factory", "FiltersSet.get_filter_actions"),
                     ("sievelib.factory", "FiltersSet.get_filter_matchtype"), ("sievelib.factory", "FiltersSet.getfilter"),
                     ("sievelib.commands", "ActionCommand.args_as_tuple"), ("sievelib.commands", "HeaderCommand.args_as_tuple"),
                     ("sievelib.commands", "Command.walk"), ("sievelib.tools", "to_list")]
     pl.trusted = [common.TRUSTED_STRIP]
-    pl.unverified = ["read-back of list-valued conditions (envelope, address, body, currentdate, exists) and of the reloaded set: "
-                     "BOUNDED only -- tools.to_list splits on commas with str.split, which the solvers do not decide; the deductive "
-                     "part covers string-valued actions and header conditions incl. negation folding, enabled and disabled"]
+    pl.unverified = ["read-back from the RELOADED set (it goes through the whole parser) and values containing a comma, quote or "
+                     "backslash: BOUNDED only (comma values are the listed finding)"]
     pl.explanation = (
         "Deductive: for every value without comma, quote or backslash (symbolic, all such strings) and every header name that "
         "is not a condition keyword: an action (fileinto/redirect/reject value) and a header condition (name, match type incl. "
         "the three :not forms, value) are read back unchanged by get_filter_actions / get_filter_conditions, with the "
         "negation folded back into the tag and anyof reported, both for the enabled and the disabled filter (cvc5 discharges "
-        "the strip lemma). Bounded: 21 condition forms x actions x values (spaces, non-ASCII, commas, brackets) x "
+        "the strip lemma). The same for every other supported condition kind -- size, envelope (single, list, negated), "
+        "body (with transform, negated, several keys), currentdate (:is, negated, :value), exists / notexists with 1-3 names, "
+        "two conditions under allof / anyof -- and for actions with value-less tags, two actions, stop / discard, and for "
+        "updatefilter (conditions, actions and match type replaced, enabled status kept): the REAL addfilter / updatefilter / "
+        "disablefilter / get_filter_* / args_as_tuple / tools.to_list run end to end on SYMBOLIC values; the comma splitting, "
+        "slicing and quote stripping of the read-back path are computed on the structure of the rendered strings "
+        "(pyvc/shape.py), exactly. Bounded: 21 condition forms x actions x values (spaces, non-ASCII, commas, brackets) x "
         "{anyof, allof} x {original, disabled, reloaded}; comma values and the kinds that are never read back are REFUTED "
         "there (known findings).")
     return pl
